@@ -544,6 +544,9 @@ def run(ctx: Ctx) -> None:
             else:
                 rep.ok("C03.R5", hh.qname, desc, hh.loc(br))
     rep.floor("C03.R5", n5, 1)
+    if ctx.report.prop == "C03":
+        from .common import share_rules as _share8
+        _share8(ctx, "C13", "C03.R20", ['C13.R1'], 'the run-time binder takes every argument that was given, whatever its value (a keyword argument None is an argument): the signature of a kept call launched directly equals the one computed when the same call is met in source')
 
 
 def store_paths_lexical(ctx: Ctx, rule: str) -> int:
